@@ -103,8 +103,13 @@ class PandasHypothesisBackend(PandasCheckBackend):
         elif is_table(check_obj) and key is not None:
             return self.preprocess_table_with_key(check_obj, key)
         else:
-            self.check.groups = self.check.samples  # type: ignore[attr-defined]
-            return super().preprocess(check_obj, key)
+            # the samples name the groups to hand to the test. The check
+            # object belongs to the schema: it is not written
+            if self.check.groupby is None:
+                return super().preprocess(check_obj, key)
+            return self._format_groupby_input(
+                self.groupby(check_obj), self.check.samples  # type: ignore[attr-defined]
+            )
 
     def preprocess_table_with_key(
         self,
